@@ -110,6 +110,36 @@ def load(B, st, ph):
             B(f"{n}::{canon.render(v)}")
 
 
+class Pristine:
+    """client of harness/pristine.py"""
+    def __init__(self):
+        import subprocess
+        import sys
+        env = dict(os.environ, KLVERIF_REPO=common.REPO, PYTHONHASHSEED="0")
+        self.p = subprocess.Popen([sys.executable, "-B", "-W", "ignore", os.path.join(common.VERIF, "harness", "pristine.py")], stdin=subprocess.PIPE,
+                                  stdout=subprocess.PIPE, stderr=subprocess.DEVNULL, text=True, env=env)
+        self.n = 0
+
+    def ask(self, pre, ph, src):
+        self.p.stdin.write(json.dumps({"pre": pre, "ph": ph, "src": src}) + "\n")
+        self.p.stdin.flush()
+        line = self.p.stdout.readline()
+        if not line:
+            raise MachineryError("the pristine evaluation process ended")
+        self.n += 1
+        r = json.loads(line)
+        if r.get("t") == "exc" and str(r.get("v", "")).startswith("machinery"):
+            raise MachineryError(r["v"])
+        return r
+
+    def close(self):
+        try:
+            self.p.stdin.close()
+            self.p.wait(timeout=10)
+        except Exception:   # noqa
+            self.p.kill()
+
+
 def run(tier, seed):
     import logging
     logging.disable(logging.CRITICAL)
@@ -119,10 +149,10 @@ def run(tier, seed):
     d = stage_spec("kg/KgValues.tla", "kg/KgVerbs.tla", "kg/KgAdverbs.tla", "kg/KgEval.tla", "kg/KgMachine.tla")
     mod = os.path.join(d, "KgMachine.tla")
 
-    def cfg(name, maxlen, record, prop=False, only="{}"):
+    def cfg(name, maxlen, record, prop=False, only="AllStmts"):
         p = os.path.join(d, name)
         with open(p, "w") as f:
-            f.write(f"INIT Init\nNEXT Next\nCONSTANTS\n  MaxLen = {maxlen}\n  RecordHist = {'TRUE' if record else 'FALSE'}\n  Only = {only}\n"
+            f.write(f"INIT Init\nNEXT Next\nCONSTANTS\n  MaxLen = {maxlen}\n  RecordHist = {'TRUE' if record else 'FALSE'}\n  Only <- {only}\n"
                     + ("PROPERTY Frame\n" if prop else "") + ("INVARIANT Emit\n" if record else "") + "CHECK_DEADLOCK FALSE\n")
         return p
     r0 = run_tlc(mod, cfg("design.cfg", 4 if not thorough else 5, False, prop=True), workers=16, timeout=3000)
@@ -135,11 +165,8 @@ def run(tier, seed):
     ev.add_tlc(f"KgMachine.tla history tree to depth {depth}", r1, "emitted for replay")
     behs += [p for p in r1.prints if isinstance(p, list)]
     # every history of 4 (thorough 5) statements over the long-string statements and the alias b::a
-    nst = [p for p in r1.prints if isinstance(p, list)]
-    nstmts = max((st["i"] for h in nst for st in h), default=0)
-    only = "{3, " + ", ".join(str(i) for i in range(nstmts - 6, nstmts + 1)) + "}"
-    rs = run_tlc(mod, cfg("strings.cfg", 4 if not thorough else 5, True, only=only), workers=1, timeout=7200)
-    ev.add_tlc(f"KgMachine.tla: every history of {4 if not thorough else 5} statements over the long-string statements {only}", rs, "emitted for replay, all replayed")
+    rs = run_tlc(mod, cfg("strings.cfg", 4 if not thorough else 5, True, only="StringStmts"), workers=1, timeout=7200)
+    ev.add_tlc(f"KgMachine.tla: every history of {4 if not thorough else 5} statements over the alias b::a and the seven long-string statements", rs, "emitted for replay, all replayed")
     strs = [p for p in rs.prints if isinstance(p, list)]
     ev.cov["long_string_histories"] = len(strs)
     nsim = 400 if not thorough else 5000
@@ -157,6 +184,7 @@ def run(tier, seed):
     common.use_repo()
     steps = 0
     reported = 0
+    pristine = Pristine()
     drift = valdrift = 0
     modsteps = 0
     for h in behs:
@@ -198,12 +226,21 @@ def run(tier, seed):
                 # specification's post-state (immutability of values: B shares nothing with earlier statements, but an
                 # in-place update of an operand would show in A and in B alike).
                 if not ismod and not canon.same(st["val"], res["A"]):
+                    # A and B agree with each other but not with the specification: either the known value-level deviations of
+                    # the verbs, or B is not as fresh as it looks (state global to the PROCESS, shared by every interpreter).  A
+                    # process that has never evaluated anything decides.
+                    if res["A"]["t"] != "exc":
+                        rc_ = pristine.ask(pre, st["pre"]["ph"], src)
+                        if not canon.same(res["A"], rc_):
+                            bad = (f"the interpreter that ran the whole history (and a fresh interpreter in the same process) returns "
+                                   f"{shw(res['A'])}, an interpreter in a process that has evaluated nothing else returns {shw(rc_)}")
+                if bad is None and not ismod and not canon.same(st["val"], res["A"]):
                     valdrift += 1
                     if valdrift <= 3:
                         print(f"VALUE-DRIFT (not judged here, see C01): `{src}` returns {shw(res['A'])}, the specification gives "
                               f"{canon.show(st['val'])}", flush=True)
                     break
-                if not same_env(post, sa):
+                if bad is None and not same_env(post, sa):
                     why = f"variables after the step {show_env(sa)}, the specification gives {show_env(post)}"
                     if inmod:
                         drift += 1      # the module lookup rule is the implementation's: not a verdict
@@ -220,6 +257,8 @@ def run(tier, seed):
                                   "history": hist_src, "step": j + 1, "stmt": src, "numeric_only": numeric_only})
                 reported += 1
                 break
+    ev.cov["drifting_values_re_evaluated_in_a_pristine_process"] = pristine.n
+    pristine.close()
     ev.cov["steps_in_module_phases"] = modsteps
     ev.cov["spec_drift_steps"] = drift
     ev.cov["value_drift_steps_left_to_C01"] = valdrift
